@@ -5,6 +5,10 @@ import os
 from tools.lib import vlib, coop, coop_pool
 from tools.lib.vlib import cnat, cbool, clist, ctext
 
+import logging
+logging.getLogger("Pyro5").addHandler(logging.NullHandler())
+logging.getLogger("Pyro5").propagate = False
+
 PROP = "C18"
 GEN = ["GenPool"]
 ASSUMPTIONS = [
@@ -13,6 +17,8 @@ ASSUMPTIONS = [
     "a job is the real ClientConnectionJob around a fake socket; daemon._handshake is a stub that records start/end of the job (one yield point in between) and the refusal reason; time.sleep and Thread.join(timeout) in Pool.close are not steps",
     "len() calls that are arguments of log.<level>(...) statements are not steps (logging edits do not change the model)",
     "a retiring worker (told to exit, OS thread not yet finished) is not counted as a pool worker",
+    "a job's outcome (returns / raises) is a per-connection input: ClientConnectionJob.__call__ is wrapped in the harness process to raise RuntimeError after the connection work for the selected connections; the model has ONE job-end step for both outcomes, justified by the source shape GenPool extracts (worker_handback_unconditional)",
+    "silent refused peers: with COMMTIMEOUT configured the stub refusal handshake proceeds iff the accepted socket carries a timeout (GenPool: accept_timeout_before_submit); otherwise the accept-loop thread parks on a primitive that is never enabled",
     "racing-closer cases: Pool.close() runs in a second controlled thread (index 1) while thread 0 is still submitting; the end of close's first locked region is observed as the closing thread's first lock release (or its write of Pool.closed, whichever comes first)",
 ]
 IMPORTS = "From V Require Import Model.Bytes Model.Pool Model.PoolRace Gen.GenPool Harness.Cmp Harness.H18."
@@ -22,6 +28,7 @@ class FakeSock:
     def __init__(self, jid):
         self.jid = jid
         self.closed = 0
+        self.timeout = None
 
     def close(self):
         self.closed += 1
@@ -33,10 +40,10 @@ class FakeSock:
         return -1
 
     def settimeout(self, t):
-        pass
+        self.timeout = t
 
     def gettimeout(self):
-        return None
+        return self.timeout
 
     def getpeername(self):
         return ("client", self.jid)
@@ -58,6 +65,8 @@ class Rec:
         self.viol = []           # (signature, what) found by the per-step oracle
         self.region1_done_at = None
         self.handoff_clock = {}
+        self.raised = []
+        self.blocked_refusal = None
 
 
 def jid_of(conn):
@@ -70,11 +79,22 @@ def run_impl(case):
     from Pyro5 import svr_threads
     config = Pyro5.config
     size, minw, njobs, do_close = case["size"], case["min"], case["njobs"], case["close"]
+    raises = set(case.get("raises", ()))   # connections whose job ends by raising an exception out of the job
+    silent = set(case.get("silent", ()))   # connections whose peer never sends anything (matters only when refused)
+    commtimeout = 1.0 if case.get("commtimeout") else 0
     race = bool(case.get("race"))          # Pool.close() called by a second thread (index 1) while thread 0 submits
     fw = 2 if race else 1                  # index of the first worker thread
     saved = (config.THREADPOOL_SIZE, config.THREADPOOL_SIZE_MIN, config.COMMTIMEOUT, config.POLLTIMEOUT)
-    config.THREADPOOL_SIZE, config.THREADPOOL_SIZE_MIN, config.COMMTIMEOUT, config.POLLTIMEOUT = size, minw, 0, 0
+    config.THREADPOOL_SIZE, config.THREADPOOL_SIZE_MIN, config.COMMTIMEOUT, config.POLLTIMEOUT = size, minw, commtimeout, 0
     ctl = coop_pool.Ctl()
+    orig_call = svr_threads.ClientConnectionJob.__call__
+
+    def job_call(self_):
+        orig_call(self_)
+        if jid_of(self_.csock) in raises:
+            rec.raised.append(jid_of(self_.csock))
+            raise RuntimeError("connection %d: the job ends by raising" % jid_of(self_.csock))
+    svr_threads.ClientConnectionJob.__call__ = job_call
     rec = Rec()
     try:
         with coop_pool.Instrument(ctl):
@@ -82,6 +102,11 @@ def run_impl(case):
                 def _handshake(self, conn, denied_reason=None):
                     j = jid_of(conn)
                     if denied_reason is not None:
+                        if j in silent and not conn.sock.gettimeout():
+                            # the refusal handshake first reads the peer's CONNECT message: a silent peer and a socket
+                            # without timeout block the calling (accept loop) thread forever
+                            rec.blocked_refusal = j
+                            ctl.yield_point("blocked", j)
                         ctl.yield_point("deny")
                         rec.refused.append(j)
                         rec.reasons.append(denied_reason)
@@ -205,6 +230,7 @@ def run_impl(case):
             return obs, viol
     finally:
         ctl.kill = True
+        svr_threads.ClientConnectionJob.__call__ = orig_call
         config.THREADPOOL_SIZE, config.THREADPOOL_SIZE_MIN, config.COMMTIMEOUT, config.POLLTIMEOUT = saved
 
 
@@ -235,7 +261,10 @@ def final_oracle(case, ctl, pool, rec, sets, fw=1):
             bad.append(("worker-died:" + type(t.error).__name__, "worker thread %d died with %r" % (t.idx - fw, t.error)))
     if main.error is not None:
         bad.append(("accept-loop-died:" + type(main.error).__name__, "the accept loop / close raised %r" % (main.error,)))
-    if not main.done and main.error is None:
+    if not main.done and main.error is None and main.pending and main.pending[0] == "blocked":
+        bad.append(("accept-loop-blocked", "the accept loop is blocked forever in the refusal handshake of connection %s: the refused peer is silent "
+                    "and its socket carries no timeout although COMMTIMEOUT is configured" % (main.pending[1],)))
+    elif not main.done and main.error is None:
         bad.append(("deadlock", "the accept-loop thread is blocked forever (pending %r) with no thread enabled" % (main.pending,)))
     blocked = [t.idx - fw for t in ctl.threads[fw:] if not t.done and t.pending and t.pending[0] == "acquire"]
     if blocked:
@@ -326,7 +355,13 @@ def gen_case(rng, big=False):
         for _ in range(rng.choice([1, 1, 2, 3, 5, 8])):
             sched.append([t, rng.randrange(3)])
     sched += drain_sched(nt, 4 + 3 * njobs)
-    return {"size": size, "min": minw, "njobs": njobs, "close": close, "sched": sched}
+    case = {"size": size, "min": minw, "njobs": njobs, "close": close, "sched": sched}
+    if rng.random() < 0.4:
+        case["raises"] = sorted(rng.sample(range(njobs), rng.randint(1, njobs)))
+    if rng.random() < 0.25:
+        case["commtimeout"] = True
+        case["silent"] = sorted(rng.sample(range(njobs), rng.randint(1, njobs)))
+    return case
 
 
 def family_cases():
@@ -371,6 +406,22 @@ def family_race_cases():
     return out
 
 
+def family_outcome_cases():
+    """jobs that end by raising (the worker must be handed back all the same) and refused silent peers with COMMTIMEOUT"""
+    out = []
+    for (size, minw, njobs) in [(1, 1, 3), (2, 1, 4), (2, 2, 3)]:
+        for raises in ([0], [0, 1], list(range(njobs))):
+            for a in (8, 12, 30):
+                sched = [[0, 0]] * a + [[1, 0]] * 20 + [[0, 0]] * 14 + [[2, 0]] * 12 + [[1, 0]] * 16 + [[0, 0]] * 14
+                sched += drain_sched(size + 2, 4 + 3 * njobs)
+                out.append({"size": size, "min": minw, "njobs": njobs, "close": False, "raises": raises, "sched": sched})
+        for silent in ([njobs - 1], list(range(njobs))):
+            # nobody but the accept loop runs first: connections beyond the pool size are refused
+            sched = [[0, 0]] * (12 * njobs + 6) + drain_sched(size + 2, 4 + 3 * njobs)
+            out.append({"size": size, "min": minw, "njobs": njobs, "close": False, "commtimeout": True, "silent": silent, "sched": sched})
+    return out
+
+
 def short(obs):
     return {k: obs[k] for k in ("idle", "busy", "closed", "workers", "started", "ended", "refused", "poolclosed", "main_done", "lock")}
 
@@ -385,6 +436,10 @@ def execute(ctx, cases, model_ok, res):
         res.count("size_%d_min_%d" % (case["size"], case["min"]))
         res.count("close" if case["close"] else "no_close")
         res.count("jobs_%d" % case["njobs"])
+        if case.get("raises"):
+            res.count("with_raising_jobs")
+        if case.get("silent"):
+            res.count("with_silent_refused_peers")
         res.count("refusals", len(obs["refused"]))
         res.count("served", len(obs["started"]))
         res.count("workers_created", len(obs["workers"]))
@@ -410,7 +465,7 @@ def execute(ctx, cases, model_ok, res):
 
 def all_cases(ctx):
     rng = ctx.rng
-    cases = vlib.load_corpus(PROP) + family_cases()
+    cases = vlib.load_corpus(PROP) + family_cases() + family_outcome_cases()
     for _ in range(ctx.n(450, 6000)):
         cases.append(gen_case(rng, big=not ctx.quick))
     cases += family_race_cases()
